@@ -177,9 +177,11 @@ class TLCResult:
         self.wall = 0.0
         self.coverage = {}        # action -> (distinct, total)
         self.timed_out = False
+        self.cached = False       # taken from .cache/tlc (identical earlier run)
 
     def summary(self):
-        return {'states_generated': self.generated,
+        return {'from_cache': getattr(self, 'cached', False),
+                'states_generated': self.generated,
                 'distinct_states': self.distinct, 'depth': self.depth,
                 'wall_s': round(self.wall, 1)}
 
@@ -201,6 +203,18 @@ def run_tlc(module, cfg=None, *, cwd=SPEC, workers=None, timeout=1800,
 
     Raises MachineryError on parse/semantic errors or crashes (anything that
     is not success / invariant violation / deadlock / timeout)."""
+    # The universes printed by the enumerator specs depend on the spec, the
+    # cfg and the seed only - not on /repo.  In the quick tier an identical
+    # TLC run (same spec directory content, cfg, arguments, jar) is taken
+    # from .cache/tlc; thorough runs and trace validation always run TLC.
+    ck = None
+    if (env is None and cwd == SPEC and not coverage
+            and os.environ.get('VERIF_TIER', 'quick') != 'thorough'
+            and not os.environ.get('VERIF_NO_TLC_CACHE')):
+        ck = _tlc_cache_key(module, cfg, simulate, depth, seed, extra, deadlock)
+        hit = _tlc_cache_get(ck)
+        if hit is not None:
+            return hit
     meta = scratch('tlc-')
     cmd = ['java', '-XX:+UseParallelGC', f'-Xmx{heap}', *java_opts,
            '-cp', TLA_CP, 'tlc2.TLC',
@@ -271,7 +285,63 @@ def run_tlc(module, cfg=None, *, cwd=SPEC, workers=None, timeout=1800,
     if not res.ok and not res.violated and not res.timed_out:
         raise MachineryError(
             f'TLC failed on {module} ({cfg}) rc={rc}:\n{out[-3000:]}')
+    if ck and res.ok:
+        _tlc_cache_put(ck, res)
     return res
+
+
+def _tlc_cache_dir():
+    d = os.path.join(os.environ.get('VERIF_CACHE') or os.path.join(VERIF, '.cache'), 'tlc')
+    os.makedirs(d, exist_ok=True)
+    return d
+
+
+def _tlc_cache_key(module, cfg, simulate, depth, seed, extra, deadlock):
+    h = hashlib.sha256()
+    for fn in sorted(os.listdir(SPEC)):
+        if fn.endswith('.tla') or fn == cfg:
+            h.update(fn.encode())
+            with open(os.path.join(SPEC, fn), 'rb') as f:
+                h.update(f.read())
+    for jar in TLA_CP.split(':'):
+        try:
+            st = os.stat(jar)
+            h.update(f'{jar}:{st.st_size}:{int(st.st_mtime)}'.encode())
+        except OSError:
+            pass
+    h.update(repr((module, cfg, simulate, depth, seed, tuple(extra), deadlock)).encode())
+    return h.hexdigest()[:32]
+
+
+def _tlc_cache_get(key):
+    import gzip
+    import pickle
+    p = os.path.join(_tlc_cache_dir(), key + '.pkl.gz')
+    if not os.path.exists(p):
+        return None
+    try:
+        with gzip.open(p, 'rb') as f:
+            res = pickle.load(f)
+        res.cached = True
+        return res
+    except Exception:
+        return None
+
+
+def _tlc_cache_put(key, res):
+    import gzip
+    import pickle
+    p = os.path.join(_tlc_cache_dir(), key + '.pkl.gz')
+    tmp = p + f'.{os.getpid()}.tmp'
+    try:
+        with gzip.open(tmp, 'wb', compresslevel=1) as f:
+            pickle.dump(res, f, -1)
+        os.replace(tmp, p)
+    except Exception:
+        try:
+            os.unlink(tmp)
+        except OSError:
+            pass
 
 
 def sany(module, cwd=SPEC):
